@@ -7,8 +7,8 @@
     The variant [gd] is determined by the harness by probing the real code once (create an
     At node, never observe it, advance past its time: a panic = the code as it is,
     [gd = false]; no panic = the repaired SetStale, [gd = true]), so the same cases file
-    replays before and after the repair.  [setAt] is compared only for [gd = false]: nothing
-    reads it, and the repair is free to stamp it or not for a node outside the graph. *)
+    replays before and after the repair (in the repaired SetStale the early return comes
+    before the [setAt] stamp, and the model variant does the same). *)
 From incr Require Import Base Clock.
 
 Record nobs := NObs {
@@ -32,10 +32,10 @@ Definition nobs_of (x : tnode) : nobs :=
   NObs (value (own_ x)) (isNecessary x) (height (meta_ x)) (negb (hrh (meta_ x) =? unset))
        (recomputedAt (meta_ x)) (changedAt (meta_ x)) (setAt (meta_ x)) (numRecomputes (meta_ x)).
 
-Definition nobs_eqb (gd : bool) (a b : nobs) : bool :=
+Definition nobs_eqb (a b : nobs) : bool :=
   (o_value a =? o_value b) && Bool.eqb (o_nec a) (o_nec b) && (o_height a =? o_height b)
   && Bool.eqb (o_inheap a) (o_inheap b) && (o_rec a =? o_rec b) && (o_chg a =? o_chg b)
-  && (gd || (o_set a =? o_set b)) && (o_nrec a =? o_nrec b).
+  && (o_set a =? o_set b) && (o_nrec a =? o_nrec b).
 
 Fixpoint all2 {X} (f : X -> X -> bool) (l1 l2 : list X) : bool :=
   match l1, l2 with
@@ -45,7 +45,7 @@ Fixpoint all2 {X} (f : X -> X -> bool) (l1 l2 : list X) : bool :=
   end.
 
 Definition state_matches (gd : bool) (s : state) (e : obs) : bool :=
-  (now s =? o_now e) && all2 (nobs_eqb gd) (map nobs_of (nodes s)) (o_nodes e).
+  (now s =? o_now e) && all2 nobs_eqb (map nobs_of (nodes s)) (o_nodes e).
 
 (* index of the first disagreement *)
 Fixpoint replay (gd : bool) (s : state) (tr : list (op * obs)) (i : nat) : option nat :=
